@@ -23,6 +23,7 @@ CHECKS = {
             P('props/C02.cpp', 'fast', 'docs-fast-sse2', tier_args={'quick': ['--nodes', '3'], 'thorough': ['--nodes', '4']}),
             P('props/C02.cpp', 'fast+avx2', 'docs-fast-avx2', tier_args={'quick': ['--nodes', '2'], 'thorough': ['--nodes', '3']}),
             P('props/C02.cpp', 'fast+nosimd', 'docs-fast-scalar', tier_args={'quick': ['--nodes', '2'], 'thorough': ['--nodes', '3']}),
+            P('props/C02.cpp', 'fast+noesc', 'docs-fast-noescape', tier_args={'quick': ['--nodes', '2'], 'thorough': ['--nodes', '3']}),
         ],
         'floor': {'quick': 100, 'thorough': 100},
     },
